@@ -1,5 +1,7 @@
 import Plotink.Proofs.C03Top
 import Plotink.Proofs.C03Sim
+import Plotink.Proofs.C03Bridge
+import Plotink.Proofs.ContractSqrtIeee
 /-! # C03 — step-limited (LM) move duration is the first tick that exhausts the step budget
 
 Spec: `Fw.lmSpec` (`Model/C03.lean`, built from the firmware recurrence of `Model/Firmware.lean`).
@@ -230,14 +232,14 @@ theorem C03_degenerate (R : Rounding) (amb : Nat) (steps rate accel : Int) (acc 
     by_cases c2 : (Py.eq (Py.int_ (.int accel)) (.int 0) && Py.eq (Py.int_ (.int rate)) (.int 0)) = true
     · rw [if_pos c2]
     · rw [if_neg c2]
-      rw [Bool.and_eq_true, eq_int_int, eq_int_int] at c2
-      rw [eq_int_int] at c1
+      rw [Bool.and_eq_true, C03.eq_int_int, C03.eq_int_int] at c2
+      rw [C03.eq_int_int] at c1
       have h3 : steps < 0 ∧ rate < 0 := by
         rcases h with h | ⟨h1, h2⟩ | h
         · exact absurd h c1
         · exact absurd ⟨h2, h1⟩ c2
         · exact h
-      rw [if_pos ((lt_int_int _ _).mpr h3.1), if_pos ((lt_int_int _ _).mpr h3.2)]
+      rw [if_pos ((C03.lt_int_int _ _).mpr h3.1), if_pos ((C03.lt_int_int _ _).mpr h3.2)]
 
 example : lmDegenerate (-3) (-1) 7 := by decide
 
@@ -260,15 +262,15 @@ theorem C03_legacy_mirror (R : Rounding) (amb : Nat) (n rate accel : Int) (acc :
   · -- with `- -n` on the right both sides are the same term once the early exits are decided
     have aux : Gen.calculate_lm R amb (.int (-n)) (.int rate) (.int accel) acc
         = Gen.calculate_lm R amb (.int (- -n)) (.int (-rate)) (.int (-accel)) acc := by
-      have a1 : ¬ (Py.eq (Py.int_ (.int (-n))) (.int 0) = true) := by rw [eq_int_int]; omega
+      have a1 : ¬ (Py.eq (Py.int_ (.int (-n))) (.int 0) = true) := by rw [C03.eq_int_int]; omega
       have a2 : ¬ ((Py.eq (Py.int_ (.int accel)) (.int 0) && Py.eq (Py.int_ (.int rate)) (.int 0)) = true) := by
-        rw [Bool.and_eq_true, eq_int_int, eq_int_int]; tauto
-      have a3 : Py.lt (Py.int_ (.int (-n))) (.int 0) = true := by rw [lt_int_int]; omega
-      have a4 : ¬ (Py.lt (Py.int_ (.int rate)) (.int 0) = true) := by rw [lt_int_int]; omega
-      have b1 : ¬ (Py.eq (Py.int_ (.int (- -n))) (.int 0) = true) := by rw [eq_int_int]; omega
+        rw [Bool.and_eq_true, C03.eq_int_int, C03.eq_int_int]; tauto
+      have a3 : Py.lt (Py.int_ (.int (-n))) (.int 0) = true := by rw [C03.lt_int_int]; omega
+      have a4 : ¬ (Py.lt (Py.int_ (.int rate)) (.int 0) = true) := by rw [C03.lt_int_int]; omega
+      have b1 : ¬ (Py.eq (Py.int_ (.int (- -n))) (.int 0) = true) := by rw [C03.eq_int_int]; omega
       have b2 : ¬ ((Py.eq (Py.int_ (.int (-accel))) (.int 0) && Py.eq (Py.int_ (.int (-rate))) (.int 0)) = true) := by
-        rw [Bool.and_eq_true, eq_int_int, eq_int_int]; omega
-      have b3 : ¬ (Py.lt (Py.int_ (.int (- -n))) (.int 0) = true) := by rw [lt_int_int]; omega
+        rw [Bool.and_eq_true, C03.eq_int_int, C03.eq_int_int]; omega
+      have b3 : ¬ (Py.lt (Py.int_ (.int (- -n))) (.int 0) = true) := by rw [C03.lt_int_int]; omega
       conv_lhs =>
         unfold Gen.calculate_lm
         change (if Py.eq (Py.int_ (.int (-n))) (.int 0) = true then _ else
@@ -313,8 +315,129 @@ theorem C03_alias (R : Rounding) (amb : Nat) (rate steps accel t p c : Py.Val)
 example : ∃ t p c, Gen.calculate_lm Rounding.exact 15 (.int 0) (.int 1) (.int 1) (.str "clear") = .tup [t, p, c] :=
   ⟨_, _, _, C03_degenerate Rounding.exact 15 0 1 1 _ (Or.inl rfl)⟩
 
+/-! ## Layer 5: the numeric bridge — the generated code computes the exact integer model
+
+Under the rounding contract (`Proofs/Contract.lean`: exactness, round-to-nearest error bound and monotonicity
+for binary64 and `mp`, and `sqrt_sq`/`sqrt_exact` for the square root) the definition the translator
+regenerates from `ebb_calc.calculate_lm` on every run returns exactly the triple of the exact integer model,
+for every request in the magnitude envelope `BridgeDom` (|rate|, |accel| ≤ 2^32, |steps| ≤ 2^31, a given
+accumulator in [0, 2^31)), whatever the ambient `mp.dps`. No reachability or rate-range hypothesis is needed.
+
+How: `C03.gen_staged` identifies the generated text with a composition of its blocks by `rfl` (so the proof
+is about the current source); every block is evaluated under the contract (`Proofs/C03Bridge.lean`); the
+square-root block uses the ceil-no-flip argument: `D` is exact at 103 bits, the computed root brackets
+correctly against half-integers because `v² − D4 = 4a·q(t)` with `q(t)` an integer, a non-root integer leaves
+a gap of `4a`, i.e. a margin `a·2^-52` in the root and `2^-52` in the quotient, and an exact integer root means
+a perfect-square `D` and exact quotient (`Proofs/C03BridgeNum.lean`); `t_rev = floor(0.5 − rate/accel)` in
+binary64 is exact because a non-integer `(accel − 2·rate)/(2·accel)` is `1/(2|accel|)` away from the integers. -/
+
+open C03 in
+/-- **C03 bridge (every branch).** -/
+theorem C03_bridge {R : Rounding} (hR : Contract R) (amb : Nat) (steps rate accel : Int) (acc : Option Int)
+    (hd : BridgeDom steps rate accel acc) :
+    Gen.calculate_lm R amb (.int steps) (.int rate) (.int accel) (accArg acc)
+      = tupOf (C03.calculate_lm steps rate accel acc) := by
+  -- after the early exits the generated function is the staged composition of its blocks: definitional
+  have gen_staged : ∀ (n r a : Int) (av : Py.Val), 0 < n → ¬ (a = 0 ∧ r = 0) →
+      Gen.calculate_lm R amb (.int n) (.int r) (.int a) av = G.staged R (.int n) (.int r) (.int a) av := by
+    intro n r a av hn hnz
+    have b1 : ¬ (Py.eq (Py.int_ (.int n)) (.int 0) = true) := by rw [C03.eq_int_int]; omega
+    have b2 : ¬ ((Py.eq (Py.int_ (.int a)) (.int 0) && Py.eq (Py.int_ (.int r)) (.int 0)) = true) := by
+      rw [Bool.and_eq_true, C03.eq_int_int, C03.eq_int_int]; omega
+    have b3 : ¬ (Py.lt (Py.int_ (.int n)) (.int 0) = true) := by rw [C03.lt_int_int]; omega
+    unfold Gen.calculate_lm
+    show (if Py.eq (Py.int_ (.int n)) (.int 0) = true then _ else
+          if (Py.eq (Py.int_ (.int a)) (.int 0) && Py.eq (Py.int_ (.int r)) (.int 0)) = true then _ else
+          if Py.lt (Py.int_ (.int n)) (.int 0) = true then _ else _) = _
+    rw [if_neg b1, if_neg b2, if_neg b3]
+    rfl
+  obtain ⟨hs, hr, ha, hacc⟩ := hd
+  by_cases hdeg : lmDegenerate steps rate accel
+  · rw [C03_degenerate R amb steps rate accel _ hdeg, C03_degenerate_model steps rate accel acc hdeg]; rfl
+  · unfold lmDegenerate at hdeg
+    rw [abs_le] at hs
+    by_cases hneg : steps < 0
+    · have hr0 : 0 ≤ rate := by omega
+      have hm := C03_legacy_mirror R amb (-steps) rate accel (accArg acc) (by omega) hr0
+      rw [neg_neg] at hm
+      rw [hm]
+      have hmodel : C03.calculate_lm steps rate accel acc = lmPos (-steps) (-rate) (-accel) acc := by
+        unfold C03.calculate_lm
+        rw [if_neg (by omega), if_neg (by omega), if_pos hneg, if_neg (by omega)]
+      rw [hmodel, gen_staged (-steps) (-rate) (-accel) _ (by omega) (by omega)]
+      exact bridge_pos hR (-steps) (-rate) (-accel) acc (by omega) (by omega) (by omega)
+        (by rwa [abs_neg]) (by rwa [abs_neg]) hacc
+    · have hmodel : C03.calculate_lm steps rate accel acc = lmPos steps rate accel acc := by
+        unfold C03.calculate_lm
+        rw [if_neg (by omega), if_neg (by omega), if_neg hneg]
+      rw [hmodel, gen_staged steps rate accel _ (by omega) (by omega)]
+      exact bridge_pos hR steps rate accel acc (by omega) (by omega) (by omega) hr ha hacc
+
+example : BridgeDom 1 (-802) 4 none := ⟨by norm_num, by norm_num, by norm_num, fun a h => by cases h⟩
+
+open C03 in
+/-- the constant-rate branch (`accel = 0`): one `mp` division, `ceil`, and the final accumulator -/
+theorem C03_bridge_linear {R : Rounding} (hR : Contract R) (amb : Nat) (steps rate : Int) (acc : Option Int)
+    (hd : BridgeDom steps rate 0 acc) :
+    Gen.calculate_lm R amb (.int steps) (.int rate) (.int 0) (accArg acc)
+      = tupOf (C03.calculate_lm steps rate 0 acc) := C03_bridge hR amb steps rate 0 acc hd
+
+example : BridgeDom 5 300 0 (some 7) :=
+  ⟨by norm_num, by norm_num, by norm_num, fun a h => by cases h; norm_num⟩
+
+open C03 in
+/-- accelerated moves without a reversal in play (the model's "no reversal" test holds): square root via the
+contract, ceil-no-flip -/
+theorem C03_bridge_noreversal {R : Rounding} (hR : Contract R) (amb : Nat) (steps rate accel : Int)
+    (acc : Option Int) (hd : BridgeDom steps rate accel acc) (_ha : accel ≠ 0) (_hs : 0 < steps)
+    (_hnr : noRev steps rate accel (startAcc rate accel acc)) :
+    Gen.calculate_lm R amb (.int steps) (.int rate) (.int accel) (accArg acc)
+      = tupOf (C03.calculate_lm steps rate accel acc) := C03_bridge hR amb steps rate accel acc hd
+
+example : BridgeDom 3 100 7 none ∧ (7 : Int) ≠ 0 ∧ noRev 3 100 7 (startAcc 100 7 none) :=
+  ⟨⟨by norm_num, by norm_num, by norm_num, fun a h => by cases h⟩, by decide, by decide⟩
+
+open C03 in
+/-- moves with a reversal in play (reversal before the first step, or steps in both directions), including the
+binary64 `t_rev = floor(0.5 − rate/accel)` -/
+theorem C03_bridge_reversal {R : Rounding} (hR : Contract R) (amb : Nat) (steps rate accel : Int)
+    (acc : Option Int) (hd : BridgeDom steps rate accel acc) (_hs : 0 < steps)
+    (_hrev : ¬ noRev steps rate accel (startAcc rate accel acc)) :
+    Gen.calculate_lm R amb (.int steps) (.int rate) (.int accel) (accArg acc)
+      = tupOf (C03.calculate_lm steps rate accel acc) := C03_bridge hR amb steps rate accel acc hd
+
+example : BridgeDom 1 (-802) 4 none ∧ ¬ noRev 1 (-802) 4 (startAcc (-802) 4 none) :=
+  ⟨⟨by norm_num, by norm_num, by norm_num, fun a h => by cases h⟩, by decide⟩
+
+open C03 in
+/-- **C03 for the source-regenerated code.** On the property's domain (Spec result exists, rates in range up to
+it) and inside the envelope, the generated `calculate_lm` returns the Spec's
+`(first tick, position, accumulator)`. -/
+theorem C03_main {R : Rounding} (hR : Contract R) (amb : Nat) (steps rate accel : Int) (acc : Option Int)
+    (fuel : Nat) (res : Int × Int × Int)
+    (hd : BridgeDom steps rate accel acc)
+    (hspec : lmSpec steps rate accel acc fuel = some res)
+    (hv : ValidLM steps rate accel acc res.1) :
+    Gen.calculate_lm R amb (.int steps) (.int rate) (.int accel) (accArg acc) = tupOf res := by
+  rw [C03_bridge hR amb steps rate accel acc hd, C03_model steps rate accel acc fuel res hspec hv]
+
+open C03 in
+/-- the deprecated wrapper, source-regenerated: `moveTimeLM` returns the Spec's first tick -/
+theorem C03_main_moveTimeLM {R : Rounding} (hR : Contract R) (amb : Nat) (steps rate accel : Int)
+    (fuel : Nat) (res : Int × Int × Int)
+    (hd : BridgeDom steps rate accel none)
+    (hspec : lmSpec steps rate accel none fuel = some res)
+    (hv : ValidLM steps rate accel none res.1) :
+    Gen.moveTimeLM R amb (.int rate) (.int steps) (.int accel) = .int res.1 :=
+  C03_alias R amb _ _ _ _ _ _ (C03_main hR amb steps rate accel none fuel res hd hspec hv)
+
 /-- and the model's wrapper -/
 theorem C03_alias_model (rate steps accel : Int) :
     C03.moveTimeLM rate steps accel = (C03.calculate_lm steps rate accel none).1 := rfl
+
+/-- non-vacuity of the rounding hypothesis `Contract R` of `C03_bridge` / `C03_main`: the concrete
+IEEE / mpmath round-to-nearest instance (including its correctly rounded square root), which the driver
+executes and every run compares with CPython/mpmath, satisfies the full contract -/
+theorem C03_contract_ieee : Contract Rounding.ieee := contract_ieee
 
 end Plotink
